@@ -198,7 +198,7 @@ def check_nested(ctx):
     ctx.eng.max_strlen = 64          # symbol names are concrete strings
     shape = ctx.sym("shape", 32)
     x = ctx.sym("x", 32)
-    ctx.assume(z3.ULE(shape, 6))
+    ctx.assume(z3.ULE(shape, 7))
     paths = ctx.run("k_nested", [shape, x])
     for q in paths:
         if q.status != "ret":
@@ -208,9 +208,9 @@ def check_nested(ctx):
         addr = logs(q, 24)[0]
         A, B = bv(addr[1]), bv(addr[2])
         exp = {0: [(1, A, 0)], 1: [(3, A, 0), (0, A, 1)], 2: [(50, A, 0), (8, B, 5), (1, A, 1)], 3: [(50, A, 0), (8, B, 5), (4, A, 1)],
-               4: [(8, B, 0), (7, B, 1)], 5: [(0, A, 0)], 6: [(0, A, 0), (1, A, 1)]}[sh]
+               4: [(8, B, 0), (7, B, 1)], 5: [(0, A, 0)], 6: [(0, A, 0), (1, A, 1)], 7: [(60, A, 0), (1, A, 1)]}[sh]
         res = {0: lambda v: v + 1000, 1: lambda v: (v + 3000) + (v + 1), 2: lambda v: (v + 5 + 8000 + 1) + (v + 1 + 1000),
-               3: lambda v: (v + 5 + 8000 + 1) + (v + 1 + 4000), 4: lambda v: (v + 8000) + (v + 1 + 7000), 5: lambda v: v, 6: lambda v: v + (v + 1 + 1000)}[sh](x)
+               3: lambda v: (v + 5 + 8000 + 1) + (v + 1 + 4000), 4: lambda v: (v + 8000) + (v + 1 + 7000), 5: lambda v: v, 6: lambda v: v + (v + 1 + 1000), 7: lambda v: (v + 60000) + (v + 1 + 1000)}[sh](x)
         body = logs(q, 20)
         if len(body) != len(exp):
             ctx.fail(q, "%d callback bodies ran, expected %d (shape %d)" % (len(body), len(exp), sh))
@@ -221,8 +221,8 @@ def check_nested(ctx):
         ctx.require(q, z3.And(*conj), "each entry point runs exactly its registered function, in order, with the sandbox that is executing (also after a nested "
                                       "visit to another sandbox) and the right argument")
     ctx.only(paths, "ret")
-    ctx.expect(paths, ret=7)
-    ctx.validate_paths(paths, 7)
+    ctx.expect(paths, ret=8)
+    ctx.validate_paths(paths, 8)
 
 
 NOOP = ('#define RLBOX_USE_STATIC_CALLS() rlbox_noop_sandbox_lookup_symbol\n#define BACKEND_HEADER "C13_noop.hpp"\n'
